@@ -73,7 +73,7 @@ impl<'a> Reader<'a> {
     }
 
     pub fn bump(&mut self) {
-        if self.current != EOF {
+        if !self.is_eof() {
             self.current_buffer_byte_len += self.current.len_utf8();
             self.prev = self.current;
             self.current = self.next;
@@ -99,7 +99,8 @@ impl<'a> Reader<'a> {
     }
 
     pub fn is_eof(&self) -> bool {
-        self.current == EOF
+        // positional: a NUL character in the text is an ordinary character, not the end of input
+        self.current_buffer_byte_pos + self.current_buffer_byte_len >= self.text.len()
     }
 
     pub fn is_start_of_line(&self) -> bool {
